@@ -133,6 +133,7 @@ type c18Case struct {
 	Items    int    `json:"items"`
 	CellRuns string `json:"cell_runs,omitempty"`
 	OtherRow bool   `json:"placeholder_in_other_row,omitempty"`
+	Inner    bool   `json:"nested_table_in_loop_row,omitempty"` // the loop row's second cell also carries a 1x1 table with an item placeholder
 	// image
 	Neigh string `json:"neighbours,omitempty"`
 }
@@ -142,7 +143,7 @@ func (c c18Case) String() string {
 	case "var":
 		return fmt.Sprintf("var surr=%s loc=%s pos=%s seg=%s data=%s", c.Surr, c.Loc, c.Pos, c18SegString(c.Seg), c.Data)
 	case "loop":
-		return fmt.Sprintf("loop loc=%s row=%s items=%d cells=%s otherRowPlaceholder=%v data=%s", c.Loc, c.RowPos, c.Items, c.CellRuns, c.OtherRow, c.Data)
+		return fmt.Sprintf("loop loc=%s row=%s items=%d cells=%s otherRowPlaceholder=%v nestedTableInLoopRow=%v data=%s", c.Loc, c.RowPos, c.Items, c.CellRuns, c.OtherRow, c.Inner, c.Data)
 	}
 	return fmt.Sprintf("image loc=%s pos=%s runs=%s neighbours=%s data=%s", c.Loc, c.Pos, c.CellRuns, c.Neigh, c.Data)
 }
@@ -631,6 +632,13 @@ func c18BuildLoop(cs c18Case) (*c18B, string) {
 		b.e(t.SetRowHeight(tr, &document.RowHeightConfig{Height: 18, Rule: document.RowHeightMinimum}))
 		b.e(t.SetRowKeepTogether(tr, true))
 		b.e(t.SetCellShading(tr, 1, &document.ShadingConfig{Pattern: document.ShadingPatternClear, ForegroundColor: "auto", BackgroundColor: "DDDDDD"}))
+		if cs.Inner {
+			in, err := t.AddNestedTable(tr, 1, &document.TableConfig{Rows: 1, Cols: 1, Width: 1200})
+			b.e(err)
+			if err == nil {
+				b.setCell(in, 0, 0, b.para([]c18R{{'t', "in {{a}}", 3}, {'t', " of {{b}}", 0}}, s))
+			}
+		}
 		if cs.OtherRow {
 			or := (tr + 1) % 3
 			b.setCell(t, or, 1, b.para([]c18R{{'t', "by {{name}}", 7}}, s))
@@ -1523,6 +1531,41 @@ func (o *c18O) row(b, r *pkgmodel.Node, where string, depth int, sub *c18Sub, pr
 			if c18Name(bp[k]) == "w:p" && c18Name(rp[k]) == "w:p" {
 				o.para(bp[k], rp[k], loc, *sub, prefix)
 			}
+			if c18Name(bp[k]) == "w:tbl" && c18Name(rp[k]) == "w:tbl" {
+				// a table inside a cell of the loop row is generated once per item, with that item's values
+				o.itemTable(bp[k], rp[k], loc, sub, prefix)
+			} else if c18Name(bp[k]) != c18Name(rp[k]) {
+				o.add(prefix+"structure|cell-content|"+loc, "a generated row has another kind of block in a cell than the template row", c18Name(bp[k]), c18Name(rp[k]))
+			}
+		}
+	}
+}
+
+// itemTable compares a table nested in the loop row with its copy in a generated row: same shape,
+// every paragraph substituted with the item's values.
+func (o *c18O) itemTable(b, r *pkgmodel.Node, loc string, sub *c18Sub, prefix string) {
+	br, rr := b.Children(pkgmodel.NsW, "tr"), r.Children(pkgmodel.NsW, "tr")
+	if len(br) != len(rr) {
+		o.add(prefix+"structure|nested-table-in-loop-row|"+loc, "a table nested in the loop row has another number of rows in a generated row", len(br), len(rr))
+		return
+	}
+	for i := range br {
+		bc, rc := br[i].Children(pkgmodel.NsW, "tc"), rr[i].Children(pkgmodel.NsW, "tc")
+		if len(bc) != len(rc) {
+			o.add(prefix+"structure|nested-table-in-loop-row|"+loc, "a table nested in the loop row has another number of cells in a generated row", len(bc), len(rc))
+			return
+		}
+		for j := range bc {
+			bp, rp := c18Blocks(bc[j]), c18Blocks(rc[j])
+			if len(bp) != len(rp) {
+				o.add(prefix+"structure|nested-table-in-loop-row|"+loc, "a cell of a table nested in the loop row has another number of blocks in a generated row", len(bp), len(rp))
+				continue
+			}
+			for k := range bp {
+				if c18Name(bp[k]) == "w:p" && c18Name(rp[k]) == "w:p" {
+					o.para(bp[k], rp[k], loc, *sub, prefix+"nested-in-row|")
+				}
+			}
 		}
 	}
 }
@@ -1978,6 +2021,9 @@ func c18Enumerate(tier string, visit func(cs c18Case)) {
 					for _, or := range []bool{false, true} {
 						for _, data := range []string{"plain", "meta"} {
 							visit(c18Case{Kind: "loop", Loc: loc, RowPos: rp, Items: n, CellRuns: cr, OtherRow: or, Data: data})
+							if cr == "single" {
+								visit(c18Case{Kind: "loop", Loc: loc, RowPos: rp, Items: n, CellRuns: cr, OtherRow: or, Inner: true, Data: data})
+							}
 						}
 					}
 				}
